@@ -152,17 +152,32 @@ def enumerate_paths(program, N, names, cap):
 
 
 def task_sim_enum(task):
-    """task: src (program text), N, vars (names), cap"""
+    """task: src (program text), N, vars (names), cap; the horizon is lowered while there are more than
+    cap scripts.  With "goals": also run SimulationAction on the first and the last script (two samples)."""
     from inputparser import Parser
     import settings
     settings.transform_categoricals = False
     program = Parser().parse_string(task["src"])
-    try:
-        paths, src = enumerate_paths(program, task["N"], task["vars"], task.get("cap", 2000))
-    except Overflow:
-        return {"overflow": True}
-    return {"paths": paths, "calls": src.calls, "nontrivial_calls": src.calls_nontrivial,
-            "parsed": str(program), "variables": sorted(str(v) for v in program.variables)}
+    N = task["N"]
+    retries = 0
+    while True:
+        try:
+            paths, src = enumerate_paths(program, N, task["vars"], task.get("cap", 2000))
+            break
+        except Overflow:
+            if N <= 1:
+                return {"overflow": True}
+            N -= 1
+            retries += 1
+    out = {"paths": paths, "N": N, "overflow_retries": retries, "calls": src.calls, "nontrivial_calls": src.calls_nontrivial,
+           "parsed": str(program), "variables": sorted(str(v) for v in program.variables)}
+    if task.get("goals") and len(paths) >= 2:
+        try:
+            out["action"] = task_sim_action({"src": task["src"], "N": N, "goals": task["goals"],
+                                             "scripts": [paths[0]["script"], paths[-1]["script"]]})
+        except BaseException as e:  # noqa
+            out["action"] = {"error": "exception", "etype": type(e).__name__, "msg": str(e)[:500]}
+    return out
 
 
 def task_sim_action(task):
